@@ -1019,7 +1019,7 @@ def check_C04(chk):
     n = 100000 if q else 500000
     stack = 2 << 20
     slack = 65536
-    chk.rule = ('mechanism: TLC explores the trampoline state machine (JaqTramp: Stack::next / def_run, a thrown tail call is an item, an iterator is pushed back only if it may have more) '
+    chk.rule = ('classification: the compiler`s decision for every call of a local definition (Inline / Throw / CatchOne / CatchAll from the set of tail-callable ancestors) is specified in JaqCompile; TLC runs an abstract machine on it for 63 nests and checks that the number of frames is bounded and every thrown tail call is caught (controls must exceed the bound); the real compiler, built with a hook, must report the same classification for every nest. mechanism: TLC explores the trampoline state machine (JaqTramp: Stack::next / def_run, a thrown tail call is an item, an iterator is pushed back only if it may have more) '
                 'for the loop shapes `step | f`, `., (step | f)`, `c // (step | f)` and 0..6 iterations: the stack of suspended iterators never exceeds two (a control with the decision taken '
                 'before the item must violate it). programs: TLC enumerates 10 nest kinds (self, parent, grandparent, earlier sibling, uncle, self-and-parent in turn, variable argument, variable '
                 'argument via parent, filter argument, filter argument used) x 9 tail positions (| , with and without output, //, as, else, after a local def, foreach projection, elif), 27 wrapped '
@@ -1034,9 +1034,40 @@ def check_C04(chk):
                 chk.violation(f'spec:tramp:{inv}', f'TLC: invariant {inv} of JaqTramp violated (see {res["out"]})', {'tlc_out': res['out']})
         elif 'StackBounded' not in res['invariant_violated']:
             raise ToolError('the control discipline of JaqTramp does not violate StackBounded: the invariant is vacuous')
+    # the compiler's call classification: specified (JaqCompile), model-checked with the machine, compared with the real compiler
+    import subprocess
+    vlib.build_harness()
+    hooked = vlib.build_jaq_hooked()
+    ncls = 0
+    for suite, must_hold in (('tail', True), ('control', False)):
+        res = vlib.run_tlc('MC_Compile', f'SPECIFICATION Spec\nCONSTANT Suite = "{suite}"\nINVARIANTS BoundedDepth ThrowsAreCaught\nCHECK_DEADLOCK FALSE\n', f'C04-compile-{suite}', workers=4)
+        if must_hold:
+            chk.add_tlc(res)
+            for inv in res['invariant_violated']:
+                chk.violation(f'spec:compile:{inv}', f'TLC: invariant {inv} of JaqCompile violated: the classification does not keep the machine bounded (see {res["out"]})', {'tlc_out': res['out']})
+        elif 'BoundedDepth' not in res['invariant_violated']:
+            raise ToolError('the non-tail controls do not exceed the frame bound of JaqCompile: the bound is vacuous')
+        if not must_hold:
+            continue
+        vp_ = os.path.join(W, 'vec-C04-compile.ndjson')
+        nv = vlib.write_vectors(vlib.tagged_lines(res['out'], 'VEC'), vp_, 'cls-')
+        texts_ = subprocess.run([vlib.HARNESS, 'text', vp_], stdout=subprocess.PIPE, text=True).stdout.splitlines()
+        for line, text in zip(open(vp_), texts_):
+            v = json.loads(line)
+            pr = subprocess.run([hooked, '-n', '--argjson', 'n', '3', text], stdout=subprocess.PIPE, stderr=subprocess.PIPE, text=True)
+            lines = [l.split() for l in pr.stderr.splitlines() if l.startswith('JAQ_VERIF ')]
+            if ['JAQ_VERIF', 'Main', '0'] not in lines:
+                raise ToolError(f'the hooked compiler did not report the main module for `{text}`: {pr.stderr[:300]}')
+            real = [[int(l[2]), l[3]] for l in lines[lines.index(['JAQ_VERIF', 'Main', '0']) + 1:] if l[1] == 'Call']
+            spec = [[c['ar'], c['typ']] for c in v['calls']]
+            ncls += 1
+            chk.evaluations += 1
+            chk.traces += 1
+            if real != spec:
+                chk.violation(f"classify:{v['name']}", f"{v['name']}: `{text}`: the compiler classifies the calls of local definitions as {real}, the specification (JaqCompile) as {spec}", {'vec': v, 'real': real})
+    chk.extra['classified_nests'] = ncls
     os.environ['HARNESS_TIMEOUT'] = '600'
     tot = {'programs': 0, 'completed': 0, 'controls': 0, 'controls_failing': 0}
-    vlib.build_harness()
     for suite in ('user', 'wrap', 'builtin', 'control'):
         res = vlib.run_tlc('MC_Tail', f'SPECIFICATION Spec\nCONSTANTS\n  Suite = "{suite}"\nINVARIANTS PredicateAgrees ControlsAreNotTail Specified\nCHECK_DEADLOCK FALSE\n', f'C04-{suite}', workers=8)
         chk.add_tlc(res)
@@ -1080,7 +1111,7 @@ def check_C04(chk):
         raise ToolError(f"only {tot['controls_failing']} of {tot['controls']} non-tail controls overflow or grow: the measurement does not discriminate")
     chk.assumptions += ['the decision on the real code is a measurement (fixed small stack, counting allocator) on the TLC-enumerated programs; the trampoline model assumes exact knowledge of exhaustion '
                         'where the real iterator adapters report it through size_hint',
-                        'the call classification of compile.rs (Inline / Throw / CatchOne / CatchAll) is not modelled; its effect is what the measurement observes',
+                        'the call classification is compared through a cfg-guarded hook that prints arity and call type in compilation order; definitions are identified by name (unique in the generated nests)',
                         'programs whose input grows with $n (`..` over an array of $n elements) are checked for stack only']
 
 
